@@ -264,6 +264,32 @@ def run_shard(shard):
                 add_violation(res, f"C04:inst-eq:{d1[0]}", f"instance {d1} == {d2} -> {o1 == o2}, expected {exp}",
                               {"t": "eq-inst", "a": list(d1), "b": list(d2)})
             res["evaluations"] += 1
+        # equality and encoding must agree for one OBJECT over its life: an address object whose public number attribute
+        # is re-assigned compares equal to a fresh object of the new number - then it must also WRITE that number, and what
+        # is read back from the frame must be equal to it (an object that cannot be re-assigned is fine: nothing to check)
+        for fam, kind, attr, n, bits in (("gear", "short", "address", 64, 16), ("gear", "group", "group", 16, 16),
+                                         ("device", "short", "address", 64, 24), ("device", "group", "group", 32, 24)):
+            for a in range(n):
+                for b in ((a + 1) % n, (a + n // 2) % n, 0, n - 1):
+                    o = R.lib_mkaddr((kind, a), fam)
+                    f0 = FF(bits, 0x10000 if bits == 24 else 0)
+                    o.add_to_frame(f0)              # (a first write, so that anything computed lazily exists)
+                    try:
+                        setattr(o, attr, b)
+                    except Exception:
+                        continue
+                    fresh = R.lib_mkaddr((kind, b), fam)
+                    res["evaluations"] += 1
+                    if not (o == fresh):
+                        continue                    # the library does not treat the attribute as the object's number
+                    f1, f2 = FF(bits, 0x10000 if bits == 24 else 0), FF(bits, 0x10000 if bits == 24 else 0)
+                    o.add_to_frame(f1)
+                    fresh.add_to_frame(f2)
+                    back = A.from_frame(f1)
+                    if f1.as_integer != f2.as_integer or not (back == o):
+                        add_violation(res, f"C04:retargeted-object:{fam}-{kind}",
+                                      f"{fam} {kind} object built as {a}, re-assigned to {b}: equal to a fresh {kind} {b}, but writes {f1.as_integer:#x} "
+                                      f"(fresh object writes {f2.as_integer:#x}) and reads back as {back}", {"t": "eq", "a": [fam, [kind, a]], "b": [fam, [kind, b]]})
         res["distinct"].add(("eq", "pairs"))
         res["distinct"].add(("eq", "inst-pairs"))
         sample(res, {"eq_pairs": len(objs) ** 2, "instance_pairs": len(inst) ** 2})
